@@ -92,27 +92,27 @@ Definition move_case (c : cmd) (old : option otest) (new : otest) (cross : bool)
 
 Definition is_move (c : cmd) : bool := match c with CSet | CFset | COther => true | _ => false end.
 
-Definition table_check : bool :=
-  all_dset (fun D => all_cmd (fun c => all_old (fun old => all_otest (fun new => all_bool (fun cross =>
-    negb (is_move c) ||
-    fres_eqb (fence_match true D (move_case c old new cross))
-             (FOk (map FM (doc_msgs D c old new cross)))))))).
+Definition table_body (D : dset) (c : cmd) (old : option otest) (new : otest) (cross : bool) : bool :=
+  negb (is_move c) ||
+  fres_eqb (fence_match true D (move_case c old new cross)) (FOk (map FM (doc_msgs D c old new cross))).
 
-Lemma table_check_true : table_check = true.
+Lemma table_check_true :
+  all_dset (fun D => all_cmd (fun c => all_old (fun old => all_otest (fun new => all_bool (fun cross =>
+    table_body D c old new cross))))) = true.
 Proof. vm_compute. reflexivity. Qed.
+
+Lemma table_all D c old new cross : table_body D c old new cross = true.
+Proof.
+  exact (all_bool_spec _ (all_otest_spec _ (all_old_spec _ (all_cmd_spec _
+          (all_dset_spec _ table_check_true D) c) old) new) cross).
+Qed.
 
 Theorem fence_table : forall D c old new cross,
   is_move c = true ->
   fence_match true D (move_case c old new cross) = FOk (map FM (doc_msgs D c old new cross)).
 Proof.
-  intros D c old new cross Hm.
-  pose proof table_check_true as H. unfold table_check in H.
-  pose proof (all_dset_spec _ H D) as H1. cbv beta in H1.
-  pose proof (all_cmd_spec _ H1 c) as H2. cbv beta in H2.
-  pose proof (all_old_spec _ H2 old) as H3. cbv beta in H3.
-  pose proof (all_otest_spec _ H3 new) as H4. cbv beta in H4.
-  pose proof (all_bool_spec _ H4 cross) as H5. cbv beta in H5.
-  rewrite Hm in H5. cbn [negb orb] in H5. now apply fres_eqb_eq.
+  intros D c old new cross Hm. pose proof (table_all D c old new cross) as H.
+  unfold table_body in H. rewrite Hm in H. now apply fres_eqb_eq.
 Qed.
 
 (* the guards: every failing guard silences the fence; COMMANDS filter; DEL / DROP short-cuts *)
@@ -142,21 +142,24 @@ Definition guard_fails (x : fcase) : bool :=
          || (negb (match c with CDel => true | _ => false end) && negb (c_written x))
   end.
 
-Definition guards_check : bool :=
-  all_dset (fun D => all_case (fun x => all_bool (fun acc =>
-    (* never out of fuel *)
-    negb (fres_eqb (fence_match acc D x) FFuel) &&
-    (* a failing guard, or a COMMANDS filter that does not list the command: nothing *)
-    (negb (guard_fails x || negb acc) || fres_eqb (fence_match acc D x) (FOk [])) &&
-    (* DROP: one drop message whatever the rest; DEL of a matching spatial object: one del message *)
-    (negb acc || match c_cmd x with
-                 | CDrop => fres_eqb (fence_match acc D x) (FOk [FDrop])
-                 | CDel => guard_fails x || fres_eqb (fence_match acc D x) (FOk [FDel])
-                 | _ => true
-                 end)))).
+Definition guards_body (D : dset) (x : fcase) (acc : bool) : bool :=
+  (* never out of fuel *)
+  negb (fres_eqb (fence_match acc D x) FFuel) &&
+  (* a failing guard, or a COMMANDS filter that does not list the command: nothing *)
+  (negb (guard_fails x || negb acc) || fres_eqb (fence_match acc D x) (FOk [])) &&
+  (* DROP: one drop message whatever the rest; DEL of a matching spatial object: one del message *)
+  (negb acc || match c_cmd x with
+               | CDrop => fres_eqb (fence_match acc D x) (FOk [FDrop])
+               | CDel => guard_fails x || fres_eqb (fence_match acc D x) (FOk [FDel])
+               | _ => true
+               end).
 
-Lemma guards_check_true : guards_check = true.
+Lemma guards_check_true :
+  all_dset (fun D => all_case (fun x => all_bool (fun acc => guards_body D x acc))) = true.
 Proof. vm_compute. reflexivity. Qed.
+
+Lemma guards_all D x acc : guards_body D x acc = true.
+Proof. exact (all_bool_spec _ (all_case_spec _ (all_dset_spec _ guards_check_true D) x) acc). Qed.
 
 Theorem fence_guards : forall D x acc,
   fence_match acc D x <> FFuel /\
@@ -164,22 +167,17 @@ Theorem fence_guards : forall D x acc,
   (acc = true -> c_cmd x = CDrop -> fence_match acc D x = FOk [FDrop]) /\
   (acc = true -> c_cmd x = CDel -> guard_fails x = false -> fence_match acc D x = FOk [FDel]).
 Proof.
-  intros D x acc.
-  pose proof guards_check_true as H. unfold guards_check in H.
-  pose proof (all_dset_spec _ H D) as H1. cbv beta in H1.
-  pose proof (all_case_spec _ H1 x) as H2. cbv beta in H2.
-  pose proof (all_bool_spec _ H2 acc) as H3. cbv beta in H3.
-  apply andb_true_iff in H3. destruct H3 as [H3 Hc]. apply andb_true_iff in H3. destruct H3 as [Ha Hb].
+  intros D x acc. pose proof (guards_all D x acc) as H. unfold guards_body in H.
+  apply andb_true_iff in H. destruct H as [H Hc]. apply andb_true_iff in H. destruct H as [Ha Hb].
   split; [|split; [|split]].
   - intro E. rewrite E in Ha. discriminate.
   - intros Hg. apply fres_eqb_eq.
-    destruct (guard_fails x), acc; cbn in *; try assumption; destruct Hg; discriminate.
-  - intros -> E. rewrite E in Hc. cbn in Hc. now apply fres_eqb_eq.
-  - intros -> E Hg. rewrite E, Hg in Hc. cbn in Hc. now apply fres_eqb_eq.
+    assert (Hor : guard_fails x || negb acc = true)
+      by (destruct Hg as [-> | ->]; [reflexivity|apply orb_true_r]).
+    rewrite Hor in Hb. exact Hb.
+  - intros Hacc E. subst acc. rewrite E in Hc. cbn [negb orb] in Hc. now apply fres_eqb_eq.
+  - intros Hacc E Hg. subst acc. rewrite E, Hg in Hc. cbn [negb orb] in Hc. now apply fres_eqb_eq.
 Qed.
-
-(* what a write that is not a guarded move can produce besides del / drop: COMMANDS aside, the
-   messages of a move depend on the case only through (cmd, old, new, cross) *)
 
 (* the weights of one fence's messages for one write are strictly increasing, so the stable
    sort by (weight, hook name) of sortMsgs keeps each fence's messages in the order fenceMatch
@@ -189,22 +187,20 @@ Fixpoint increasing (l : list nat) : bool :=
   | a :: ((b :: _) as t) => (a <? b) && increasing t
   | _ => true
   end.
-Definition weights_check : bool :=
-  all_dset (fun D => all_case (fun x => all_bool (fun acc =>
-    match fence_match acc D x with
-    | FOk l => increasing (map weight l)
-    | FFuel => true
-    end))).
-Lemma weights_check_true : weights_check = true.
+Definition weights_body (D : dset) (x : fcase) (acc : bool) : bool :=
+  match fence_match acc D x with
+  | FOk l => increasing (map weight l)
+  | FFuel => true
+  end.
+Lemma weights_check_true :
+  all_dset (fun D => all_case (fun x => all_bool (fun acc => weights_body D x acc))) = true.
 Proof. vm_compute. reflexivity. Qed.
+
+Lemma weights_all D x acc : weights_body D x acc = true.
+Proof. exact (all_bool_spec _ (all_case_spec _ (all_dset_spec _ weights_check_true D) x) acc). Qed.
 
 Theorem fence_weights_increasing : forall D x acc l,
   fence_match acc D x = FOk l -> increasing (map weight l) = true.
 Proof.
-  intros D x acc l E.
-  pose proof weights_check_true as H. unfold weights_check in H.
-  pose proof (all_dset_spec _ H D) as H1. cbv beta in H1.
-  pose proof (all_case_spec _ H1 x) as H2. cbv beta in H2.
-  pose proof (all_bool_spec _ H2 acc) as H3. cbv beta in H3.
-  now rewrite E in H3.
+  intros D x acc l E. pose proof (weights_all D x acc) as H. unfold weights_body in H. now rewrite E in H.
 Qed.
